@@ -403,6 +403,24 @@ def shrink(c):
         for t2 in (t // NS * NS + 999999999, LO + t % NS, LO + 999999999):
             if t2 != t and LO <= t2 < HI:
                 yield Case("ebp.time %s %d" % (f[1], t2), kind=c.kind, decides=c.decides, theorem=c.theorem)
+    elif f[0] in ("ebp.read", "ebp.readg") and c.decides:
+        # well-formed input: cut reserved bytes off the end / zero field bytes, keep only candidates that the model still
+        # decodes and re-encodes to themselves (i.e. that are still well-formed EBPs)
+        b = bytearray(vlib.unhx(f[1]))
+        cands = []
+        for k in (len(b) // 2, 8, 4, 2, 1):
+            if 0 < k < len(b) - 2 and b[1] >= k + 1:
+                m = bytearray(b[:len(b) - k]); m[1] = b[1] - k
+                cands.append(bytes(m))
+        for i in range(len(b) - 1, 2, -1):
+            if b[i] not in (0, 0x80) and len(cands) < 40:
+                m = bytearray(b); m[i] = b[i] & 0x80
+                cands.append(bytes(m))
+        lines = [f[0] + " " + vlib.hx(m) for m in cands]
+        for line, m, r in zip(lines, cands, vlib.run_model(lines)):
+            v = vlib.parse_val(r)
+            if v[0] == 0 and v[1][1] == m:
+                yield Case(line, kind=c.kind, decides=True, theorem=c.theorem)
     elif f[0] in ("ebp.build", "ebp.buildg"):
         # remove one field group at a time (a value together with its flag, so that a consistent script stays consistent)
         body = c.line[c.line.index("[") + 1:c.line.rindex("]")]
